@@ -364,10 +364,16 @@ def run_e2e(acc, clastic, shard, nshards, maxel, maxsegs):
         ptext = R.pattern_text(elems, branch)
         relems = ref_elems(elems)
         names = [e[1] for e in elems if e[0] == 'bind']
-        for mode, placement in ((R.STRICT, 'app'), (R.REWRITE, 'app'), (R.STRICT, 'route'), (R.REWRITE, 'route')):
+        for mode, placement in ((R.STRICT, 'app'), (R.REWRITE, 'app'), (R.STRICT, 'route'), (R.REWRITE, 'route'),
+                                (R.STRICT, 'embed-own'), (R.REWRITE, 'embed-own')):
             ep, seen = _mk_endpoint(names)
             if placement == 'app':
                 app = Application([Route(ptext, ep)], slash_mode=mode)
+            elif placement == 'embed-own':
+                # the mode is that of an embedded application which keeps its own slashes
+                from clastic import SubApplication
+                inner = Application([Route(ptext, ep)], slash_mode=mode)
+                app = Application([SubApplication('/', inner, inherit_slashes=False)], slash_mode=R.REDIRECT)
             else:
                 # the mode is the route's own: the application around it is in redirect mode
                 app = Application([], slash_mode=R.REDIRECT)
@@ -434,7 +440,7 @@ def space_size(tier):
     for name, kinds, lo, hi, mkpaths in layers(tier):
         total += len(layer_patterns(kinds, lo, hi)) * len(MODES) * len(mkpaths())
     total += len(invalid_patterns()) * len(MODES)
-    total += len(layer_patterns(P2_KINDS, 0, 2)) * 4 * len(seg_paths(2 if tier == 'quick' else 3))
+    total += len(layer_patterns(P2_KINDS, 0, 2)) * 6 * len(seg_paths(2 if tier == 'quick' else 3))
     return total
 
 
@@ -486,7 +492,11 @@ def replay(case):
         elems, branch = R.parse_pattern(case['pattern'])
         names = [e[1] for e in elems if e[0] == 'bind']
         ep, seen = _mk_endpoint(names)
-        if case.get('placement') == 'route':
+        if case.get('placement') == 'embed-own':
+            from clastic import SubApplication
+            inner = Application([Route(case['pattern'], ep)], slash_mode=case['mode'])
+            app = Application([SubApplication('/', inner, inherit_slashes=False)], slash_mode=R.REDIRECT)
+        elif case.get('placement') == 'route':
             app = Application([], slash_mode=R.REDIRECT)
             app.add(Route(case['pattern'], ep, slash_mode=case['mode']), inherit_slashes=False)
         else:
